@@ -458,7 +458,7 @@ class Run:
         return sh(cmd, timeout=getattr(self.mod, "GEN_TIMEOUT", 600), stdout_path=path, env=self.driver_env(), cwd=self.dir)
 
     def exec_inputs(self, inp, outp, single=False):
-        to = getattr(self.mod, "EXEC_TIMEOUT", {"quick": 900, "thorough": 7200})[self.tier]
+        to = getattr(self.mod, "EXEC_TIMEOUT", {"quick": 300, "thorough": 7200})[self.tier]
         if single:
             # one case alone: a hang must not eat the budget of the whole run
             to = getattr(self.mod, "SINGLE_TIMEOUT", 180)
